@@ -212,6 +212,37 @@ struct KeystoreWorld : World {
         else r = ascon80pq_siv_decrypt(pt.p, &ml, csrc, mlen + 16, ap, adlen, n.data(), k.data());
         if (r != 0 || ml != mlen || (mlen && memcmp(pt.p, m.data(), mlen) != 0))
             c.run->violation("C06", "siv_round_trip", site + ".decrypt", fmt("mlen=%zu adlen=%zu result=%d", mlen, adlen, r));
+        // The same decryption with both buffers in one arena, disjoint but 0..19 bytes apart, in either order: where the
+        // buffers live is not an input of the construction.
+        {
+            size_t gap = (size_t)((sd >> 28) % 20);
+            bool pt_first = (sd >> 33) % 2 == 0;
+            GuardBuf arena(mlen + gap + mlen + 16, (unsigned)(sd >> 36), false);
+            uint8_t *ptp = pt_first ? arena.p : arena.p + mlen + 16 + gap;
+            uint8_t *ctp = pt_first ? arena.p + mlen + gap : arena.p;
+            memcpy(ctp, ct.p, mlen + 16);
+            size_t ml2 = 0;
+            int r2;
+            if (alg == 0) r2 = ascon128_siv_decrypt(ptp, &ml2, ctp, mlen + 16, ap, adlen, n.data(), k.data());
+            else if (alg == 1) r2 = ascon128a_siv_decrypt(ptp, &ml2, ctp, mlen + 16, ap, adlen, n.data(), k.data());
+            else r2 = ascon80pq_siv_decrypt(ptp, &ml2, ctp, mlen + 16, ap, adlen, n.data(), k.data());
+            c.run->probe("siv.decrypt_adjacent_buffers");
+            if (r2 != 0 || ml2 != mlen || (mlen && memcmp(ptp, m.data(), mlen) != 0))
+                c.run->violation("C06", "siv_round_trip", site + ".decrypt.adjacent_buffers",
+                                 fmt("mlen=%zu adlen=%zu result=%d: plaintext buffer %s the ciphertext buffer, %zu bytes apart", mlen, adlen, r2, pt_first ? "before" : "after", gap));
+            if (!arena.intact()) c.run->violation("C12", "canary", site + ".decrypt.adjacent_buffers", "arena canary damaged");
+            // and the encryption side: message right before / after the ciphertext buffer
+            GuardBuf arena2(mlen + gap + mlen + 16, (unsigned)(sd >> 40), false);
+            uint8_t *mp2 = pt_first ? arena2.p : arena2.p + mlen + 16 + gap;
+            uint8_t *cp2 = pt_first ? arena2.p + mlen + gap : arena2.p;
+            if (mlen) memcpy(mp2, m.data(), mlen);
+            size_t cl3 = 0;
+            if (alg == 0) ascon128_siv_encrypt(cp2, &cl3, mp2, mlen, ap, adlen, n.data(), k.data());
+            else if (alg == 1) ascon128a_siv_encrypt(cp2, &cl3, mp2, mlen, ap, adlen, n.data(), k.data());
+            else ascon80pq_siv_encrypt(cp2, &cl3, mp2, mlen, ap, adlen, n.data(), k.data());
+            if (cl3 != mlen + 16 || memcmp(cp2, want.data(), mlen + 16) != 0)
+                c.run->violation("C06", "siv_matches_documented_construction", site + ".encrypt.adjacent_buffers", fmt("mlen=%zu adlen=%zu gap=%zu", mlen, adlen, gap));
+        }
         c.run->state(fmt("siv/%d/%s/%s", alg, mlen == 0 ? "0" : mlen < 8 ? "<" : mlen % 8 ? ">" : "k", adlen == 0 ? "0" : adlen % 8 ? ">" : "k"));
     }
 
